@@ -63,7 +63,9 @@ class C12(flow.Spec):
             "or repetition (Coq oracle consecutive_from), an error event only as the last event, and unless it stopped it "
             "must reach the last change produced. What each real catch_up_sub observed (first read, peeked event or watch "
             "value, re-reads, buffered ids; cfg hook) is fed to the Coq model, whose delivered ids must be the prefix of the "
-            "real stream. non-trivial = distinct (history, subscriber) whose catch-up had to reconcile (peeked event, watch "
+            "real stream. Plus `early` histories: a second subscriber attaches while the creator's initial query is still being relayed "
+            "to the broadcast (relay delay = schedule knob): each subscriber must get every row exactly once, exactly one end of "
+            "query and then the consecutive changes. non-trivial = distinct (history, subscriber) whose catch-up had to reconcile (peeked event, watch "
             "ahead, or buffered ids)")
     assumptions = ["PARTIAL: tokio interleavings are sampled under schedule knobs, not enumerated; the theorem covers every observation the reconciliation can be given, the harness only samples which observations real schedules produce",
                    "the broadcast delivers change events in id order and without loss (tokio broadcast; a Lagged receiver ends the stream)",
@@ -100,9 +102,17 @@ class C12(flow.Spec):
                     produced += pending_rows + n; pending_rows = 0; tags.add("attach-around-batch")
             ops += ["W 2", "F", "S 200"]
             out.append(("attach %d %d %s" % (delay, len(ops), " ".join(ops)), tags))
+        # attaching while the creator's initial query is still travelling through the broadcast
+        M = 6 if tier == "quick" else 60
+        for _ in range(M):
+            nrows = rnd.choice([3, 8, 20, 40])
+            relay = rnd.choice([0, 20, 40, 80])
+            out.append(("early %d %d %d" % (nrows, rnd.choice([50, 150, 400]), relay), {"attach-during-initial-query", "relay-delay-%d" % relay}))
         return out
 
     def model_lines(self, case, impl_obs):
+        if case.startswith("early"):
+            return []
         p = parse(impl_obs)
         if p is None:
             return []
@@ -127,6 +137,8 @@ class C12(flow.Spec):
         return lines
 
     def agree(self, case, impl_obs, model_obs):
+        if case.startswith("early"):
+            return True                # judged by impl_verdict: the model is about change events
         p = parse(impl_obs)
         if p is None:
             return False
@@ -168,6 +180,8 @@ class C12(flow.Spec):
         return True
 
     def oracle_lines(self, case, impl_obs):
+        if case.startswith("early"):
+            return []
         p = parse(impl_obs)
         if p is None:
             return []
@@ -181,6 +195,31 @@ class C12(flow.Spec):
         return out
 
     def impl_verdict(self, case, impl_obs):
+        if case.startswith("early"):
+            # one consistent snapshot: every row exactly once, one end of query, then the changes
+            if impl_obs.startswith(("PANIC", "ERR", "CRASH")):
+                return False
+            nrows = int(case.split()[1])
+            parts = impl_obs.split(" # ")
+            if len(parts) != 2:
+                return False
+            for p_ in parts:
+                m = re.match(r"(\S+) status=(\d+) rows=(\d+) eoq=(\d+) evs=(\S*) closed=(\d)", p_.strip())
+                if not m or m.group(2) != "200":
+                    return False
+                if int(m.group(3)) != nrows or m.group(4) != "1":
+                    return False
+                evs = m.group(5).split(",")
+                if not evs[0].startswith("eoq:") or not evs[0][4:].isdigit():
+                    return False
+                cur = int(evs[0][4:])
+                for e in evs[1:]:
+                    if e != "c:%d" % (cur + 1):
+                        return False
+                    cur += 1
+                if cur != 3:
+                    return False
+            return None
         p = parse(impl_obs)
         if p is None:
             return False
